@@ -27,9 +27,10 @@ const (
 	kBlobOneShot           // Repository.Blobs().Push with a one-shot reader
 	kOneShotChunked        // PUT with a one-shot reader of unknown length (ContentLength 0 + non-nil Body: sent chunked)
 	kGetBodyChunked        // PUT with a reader of unknown length that the caller made replayable with its own GetBody
+	kBlobSeeker            // Repository.Blobs().Push with a file-like io.ReadSeeker positioned behind a two-byte header (the blob is the rest)
 )
 
-var kindName = [...]string{"none", "bytes.Reader", "one-shot", "GetBody-fails", "one-shot via Manifests().Push", "Blobs().Push bytes.Reader", "Blobs().Push one-shot", "one-shot unknown length", "caller GetBody unknown length"}
+var kindName = [...]string{"none", "bytes.Reader", "one-shot", "GetBody-fails", "one-shot via Manifests().Push", "Blobs().Push bytes.Reader", "Blobs().Push one-shot", "one-shot unknown length", "caller GetBody unknown length", "Blobs().Push file-like ReadSeeker at offset 2"}
 
 // pol is one parameter set of the retry policy used by the scenarios.
 type pol struct {
@@ -174,6 +175,11 @@ func runCall(cf cfg, f *fake, cancelAt time.Duration, deadline bool) outcome {
 		case kBlobOneShot:
 			desc.MediaType = "application/octet-stream"
 			out.err = repo.Blobs().Push(ctx, desc, &oneShot{bytes.NewReader(content)})
+		case kBlobSeeker:
+			desc.MediaType = "application/octet-stream"
+			src := &fileLike{bytes.NewReader(append([]byte("XY"), content...))}
+			src.Seek(2, io.SeekStart)
+			out.err = repo.Blobs().Push(ctx, desc, src)
 		}
 	}
 	out.end = time.Since(f.t0)
